@@ -55,7 +55,8 @@ def gen_modular(rng, tier, nrand_quick, nrand_thorough, gen_kwargs=None, base=Tr
     Q = ('pred', 'leq', ('var', 1), ('const', 2))
     base = [('and', ('once', P), ('prev', ('once', P))), ('since', ('prev', P), ('or', ('prev', P), Q)), ('or', ('oncet', 0, 2, P), ('not', ('oncet', 0, 2, P))),
             ('and', ('evt', 0, 2, P), ('alwt', 1, 2, ('evt', 0, 2, P))), ('implies', ('hist', P), ('sincet', 0, 1, ('hist', P), Q)),
-            ('a2', 'add', ('sprev', ('var', 0)), ('sprev', ('var', 0))), ('until', P, ('next', Q)), ('rise', ('and', P, Q))]
+            ('a2', 'add', ('sprev', ('var', 0)), ('sprev', ('var', 0))), ('until', P, ('next', Q)), ('rise', ('and', P, Q)),
+            ('and', ('evt', 0, 2, P), ('var', 1)), ('since', ('evt', 1, 2, P), ('untilt', 0, 1, ('var', 1), Q))]
     items = [(f, 2) for f in base for _ in range(2)] if base is True else []
     gen_kwargs = gen_kwargs or {}
     for i in range(nrand):
